@@ -200,6 +200,8 @@ var floatLits = []string{
 	"2.2250738585072014e-308", "5e-324", "4.9406564584124654e-324", "2.2250738585072011e-308",
 	"1.0000000000000002", "0.1", "0.2", "0.30000000000000004", "100000000000000000000.0", "1e22", "1e23",
 	"9007199254740993.0", "4.35", "8.5e15", "123456789012345680000", "0.1e1", "12.5E-3", "6.02214076e23",
+	"9223372036854775808.0", "9.223372036854775808e18", "-9223372036854775808.0", "18446744073709551616.0", "1.8446744073709552e19",
+	"4611686018427387904.0", "9223372036854774784.0", "9223372036854777856.0", "-9223372036854777856.0",
 }
 
 func (g *docGen) number() {
